@@ -135,6 +135,19 @@ def execute_c08(case):
     t = _harness_trouble(obs, 'C08')
     if t:
         return t
+    # workers that came up after terminate() had started (the event log survives
+    # a watchdog kill): one fork may have been in flight, more means the
+    # supervisor went on forking after the pool was told to terminate
+    ev = obs.get('events', [])
+    t_term = [float(e[2]) for e in ev if e[:2] == ['step', 'terminate']]
+    late_ups = [float(e[2]) - t_term[0] for e in ev
+                if e[0] == 'up' and t_term and float(e[2]) > t_term[0] + 0.05]
+    if len(late_ups) >= 2:
+        return bad('C08/forked-after-terminate', '%d workers were started after '
+                   'terminate() had begun (at +%s s)%s' % (
+                       len(late_ups), ', +'.join('%.2f' % x for x in late_ups),
+                       '; terminate() then hung' if obs['hung'] else ''),
+                   nontrivial, labels)
     if obs['hung']:
         if main_thread_in(obs['stacks'], ['terminate', '_terminate_pool',
                                           'del_pool', 'collect']):
@@ -142,16 +155,10 @@ def execute_c08(case):
             ws = ' '.join(obs.get('worker_stacks', {}).values())
             if '__enter__' in ws and 'synchronize.py' in ws:
                 where = 'workers-blocked-on-queue-lock'
-                # D21: exactly one worker came up within 0.4 s of the start of
-                # terminate() and none later - its fork was in flight when the
-                # kill loop ran
-                ev = obs.get('events', [])
-                t_term = [float(e[2]) for e in ev if e[:2] == ['step', 'terminate']]
-                if t_term:
-                    late = [float(e[2]) - t_term[0] for e in ev
-                            if e[0] == 'up' and float(e[2]) > t_term[0] - 0.02]
-                    if len(late) == 1 and late[0] < 0.4:
-                        where = 'fork-in-flight'
+                # D21: terminate() raced the supervisor's replacement of
+                # workers (at most the one fork that was in flight came after)
+                if mass:
+                    where = 'replacement-race'
             return bad('C08/terminate-hangs/%s' % where,
                        'terminate() did not return within %ss\n%s\nworkers:\n%s' % (
                            scen['watch'], obs['stacks'][-1500:], ws[-1500:]),
@@ -430,6 +437,10 @@ def execute_c04(case):
         if pid in obs['snapshots']['after']['pids']:
             return bad('C04/real-victim-listed', 'dead worker %d still in the pool'
                        % pid, nontrivial, labels)
+    for tag, rec in obs['jobs'].items():
+        if len(rec.get('cb', [])) > 1:
+            return bad('C04/real-callbacks-twice', 'job %s: result callbacks %r' % (
+                tag, rec['cb']), nontrivial, labels)
     for i in range(case['others']):
         out = obs['jobs'].get('o%d' % i, {}).get('outcome')
         if out != {'ok': True, 'value': i}:
